@@ -48,8 +48,21 @@ def main():
         if not nosuite:
             rc, out = sh("go test -vet=off -count=1 ./... 2>&1 | grep -v 'no test files' | grep -v '^ok' ", cwd=wt, timeout=3600)
             fails = [l for l in out.splitlines() if l.startswith("FAIL") or l.startswith("--- FAIL")]
-            res["suite_passes"] = not fails
+            # timing-dependent tests flake on a loaded machine: re-run failing packages alone (twice) before concluding
+            pkgs = sorted({l.split()[1] for l in fails if l.startswith("FAIL\t") and len(l.split()) > 1})
+            still = []
+            for pk in pkgs:
+                okk = False
+                for _ in range(2):
+                    rc2, out2 = sh("go test -vet=off -count=1 " + pk.replace("github.com/siglens/siglens", "."), cwd=wt, timeout=1800)
+                    if rc2 == 0:
+                        okk = True
+                        break
+                if not okk:
+                    still.append(pk)
+            res["suite_passes"] = not still
             res["suite_fail_lines"] = fails[:5]
+            res["suite_flaky_retried"] = pkgs
         checks = {}
         for p in props:
             t0 = time.time()
